@@ -70,7 +70,7 @@ func idmMapOps(f *ssa.Function) []mapOp {
 				out = append(out, mapOp{in: x, field: n, key: x.Key, val: x.Value, fresh: fr})
 			}
 		case *ssa.Call:
-			if b, ok := x.Call.Value.(*ssa.Builtin); ok && b.Name() == "delete" && len(x.Call.Args) == 2 {
+			if b, ok := x.Call.Value.(*ssa.Builtin); ok && nm(b) == "delete" && len(x.Call.Args) == 2 {
 				if n, fr, ok := mapField(x.Call.Args[0]); ok {
 					out = append(out, mapOp{in: x, field: n, key: x.Call.Args[1], del: true, fresh: fr})
 				}
